@@ -1381,6 +1381,12 @@ func (e *Eval) model(fr *frame, x *ssa.Call, callee *ssa.Function, args []AV, st
 		o := e.newObj(okCell, x, "bufio.Writer has unflushed data")
 		e.setContentFresh(st, o, CellC{KBool(false)})
 		return ret(ResV{Kind: "bufio.Writer", A: args[0], O: o, Site: x})
+	case "(*bufio.Writer).Write", "(*bufio.Writer).WriteString":
+		// data waits in the writer until it is flushed
+		if rv, ok := args[0].(ResV); ok && rv.O != nil {
+			e.setContent(fr, st, rv.O, CellC{KBool(true)})
+		}
+		return ret(TupleV{RangeInt(0, math.MaxInt32), e.fallible(x, name, st)})
 	case "(*bufio.Writer).Flush":
 		if rv, ok := args[0].(ResV); ok && rv.O != nil {
 			e.setContent(fr, st, rv.O, CellC{KBool(false)})
@@ -2200,8 +2206,26 @@ func (e *Eval) guardedResult(x *ssa.Call, callee *ssa.Function, rets []retRec) (
 			}
 		}
 	}
+	isOutcome := map[*Obj]bool{}
+	for _, o := range e.errObj {
+		isOutcome[o] = true
+	}
 	for o, c := range errS {
 		if _, ok := out[o]; !ok {
+			if isOutcome[o] {
+				// a call made on failing returns only (a cleanup): not made where this call succeeds
+				tag := fmt.Sprintf("made on the failure returns of call %p only", x)
+				ph := topContent(o, tag)
+				out[o] = ph
+				if e.alts == nil {
+					e.alts = map[ssa.Instruction]map[*Obj]altContent{}
+				}
+				if e.alts[x] == nil {
+					e.alts[x] = map[*Obj]altContent{}
+				}
+				e.alts[x][o] = altContent{ok: nil, err: c, placeholder: ph.String()}
+				continue
+			}
 			out[o] = c
 		}
 	}
